@@ -367,6 +367,7 @@ pub fn check(case: &CCase) -> Verdict {
                 ow: *ow,
                 prog: cur_prog,
             }),
+            CEv::BigSent { .. } | CEv::RegFailed { .. } => {}
         }
     }
 
